@@ -507,7 +507,59 @@ def rule_continue(ctx, file, s):
         i = j + 1
     return s
 
-FOLD_SRC = re.compile(r"Self\((\w+)\.iter\(\)\.fold\((\w+), \|mut (\w+), (\w+)\| \{(.*?)\n\s*\3\n\s*\}\)\)", re.S)
+
+# --------------------------------------------------------------------------------------------
+# R-layout: the layout of a function body is canonicalised before any rule looks at it - continuation lines are joined (a method
+# chain, an index expression or an argument list broken over several lines becomes one line; a trailing comma before `)` / `]` that
+# only exists because of the line break is dropped).  Token stream unchanged otherwise; makes every textual rule and hint anchor
+# independent of how rustfmt happened to break the lines.
+# --------------------------------------------------------------------------------------------
+def join_lines(body):
+    toks = R.lex(body)
+    out = []; n = len(toks)
+    def prev_tok():
+        for t in reversed(out):
+            if t.strip(): return t
+        return ""
+    i = 0
+    while i < n:
+        t = toks[i]
+        if t.kind == "ws" and "\n" in t.text:
+            nxt = next((x.text for x in toks[i + 1:] if x.kind != "ws"), "")
+            prv = prev_tok()
+            if prv == "," and nxt in (")", "]"):
+                # drop the trailing comma
+                for k in range(len(out) - 1, -1, -1):
+                    if out[k].strip(): out.pop(k); break
+                out.append("")
+            elif nxt in (".", "?", ")", "]", ",", ";"): out.append("")
+            elif prv in ("(", "["): out.append("")
+            elif nxt == "[" and (re.match(r"[\w)\]]$", prv[-1:] or " ")): out.append("")
+            else: out.append(" ")
+        else:
+            out.append(t.text)
+        i += 1
+    return "".join(out)
+
+def norm_code(txt):
+    """normal form for the 'did this function change' hash: tokens only (no layout), no trailing commas before closers,
+    no block braces around a single-expression match arm"""
+    toks = [t.text for t in R.lex(txt) if t.kind not in ("ws", "comment")]
+    out = []
+    for i, t in enumerate(toks):
+        if t == "," and i + 1 < len(toks) and toks[i + 1] in (")", "]", "}"): continue
+        out.append(t)
+    s2 = " ".join(out)
+    # `=> { EXPR }` with no statement inside -> `=> EXPR`
+    for _ in range(6):
+        m = re.search(r"=> \{ ([^{};]*(?:\([^{};]*\)[^{};]*)*) \}", s2)
+        if not m: break
+        s2 = s2[:m.start()] + "=> " + m.group(1) + " ," + s2[m.end():]
+    s2 = re.sub(r"(?: ,)+", " ,", s2)
+    s2 = re.sub(r" , (?=[)\]}])", " ", s2)
+    return s2
+
+FOLD_SRC = re.compile(r"Self\((\w+)\.iter\(\)\.fold\((\w+), \|mut (\w+), (\w+)\| \{(.*?;)\s*\3\s*\}\)\)", re.S)
 def rule_fold(ctx, file, s):
     def f(m):
         it, init, acc, x, body = m.groups()
@@ -719,6 +771,7 @@ class FileEmitter:
             if it.kind == "trait": pass
             return txt2
         if it.kind == "type":
+            txt = re.sub(r"\s+", " ", txt).strip()      # R-layout for one-statement items
             m = re.match(r"pub type (\w+) = dyn Fn\(&str, &Value\) -> Result<\(\), PasetoClaimError>;$", txt)
             if m:
                 new = ("pub trait %s {\n    // the verdict is a function of (key, value) and the single clock reading time::now_spec()\n"
@@ -935,6 +988,7 @@ class FileEmitter:
             else:
                 b = body.replace("crate::core", "crate::rp_core")
                 if not ext:
+                    b = join_lines(b)
                     b = inline_helpers(ctx, self.rel, ik, b, d["ret"])
                     b = rule_fold(ctx, self.rel, b)
                     b = rule_continue(ctx, self.rel, b)
@@ -946,7 +1000,7 @@ class FileEmitter:
         # the hash that tells "this function changed" ignores white space and the NAMES of the parameters (a pure parameter rename is not a change)
         htxt = R.text(it.sig) + (body or "")
         for pi, (pname, _) in enumerate(pn or []): htxt = re.sub(r"(?<![\w.])%s\b" % re.escape(pname), "__p%d" % pi, htxt)
-        bh = hashlib.sha1(re.sub(r"\s+", " ", htxt).encode()).hexdigest()[:16]
+        bh = hashlib.sha1(norm_code(htxt).encode()).hexdigest()[:16]
         ctx.fn_index.append({"file": self.rel, "impl": ik, "fn": it.name, "line": it.line, "external_body": bool(ext or self.stub), "stubbed": bool(stub_this and not ext), "forced_stub_reason": forced_reason,
                              "body_hash": bh, "hints_dropped": list(self.dropped_hints) if (body is not None and not ext and not stub_this) else [],
                              "body_text": re.sub(r"\s+", " ", body or "")[:6000],
